@@ -116,6 +116,25 @@ func generate(w *mon.W) {
 			w.Do(s, func(r *mon.R) { Check(s, r) })
 		}
 	}
+	// one very long line: a string, a quoted name or a comment that holds
+	// semicolons lies across the 4 KiB, 8 KiB, 64 KiB marks, and a real
+	// semicolon follows
+	for _, mark := range []int{4096, 8192, 65536} {
+		if mark > 10000 && w.Quick() {
+			continue
+		}
+		for _, shape := range [][2]string{{"'", "'"}, {"\"", "\""}, {"`", "`"}, {"// ", "\n"}} {
+			for _, start := range []int{mark - 3000, mark - 10, mark - 1} {
+				for _, bodyLen := range []int{20, 4000} {
+					lead := "T | where aaaa == 1 or "
+					pad := strings.Repeat("b == 2 or ", (start-len(lead))/10+1)
+					line := lead + pad[:start-len(lead)] + "s == " + shape[0] + strings.Repeat("x;y ", bodyLen/4) + shape[1] + "; U | count;V"
+					s := line
+					w.Do(s, func(r *mon.R) { Check(s, r) })
+				}
+			}
+		}
+	}
 	progs := append(append([]string{}, multi...), gen.Seeds()...)
 	for _, p := range progs {
 		for i := 0; i <= len(p); i++ {
